@@ -5,6 +5,7 @@ package vh
 
 import (
 	"path/filepath"
+	"sort"
 	"testing"
 )
 
@@ -90,5 +91,36 @@ func TestDrv_Pump(t *testing.T) {
 		}
 		tr.Emit("Pump", KV{"steps": scripts[i], "encoded": enc, "returned": ret, "err": e, "stop_first": first})
 	}
-	writeJSON(filepath.Join(dir, "pump.summary.json"), KV{"scripts": len(scripts), "max_len": maxLen})
+	// the real attack behind the real pump: a signal while the attack is pacing, while it is winding down with hits
+	// still in flight, no signal at all, and two signals
+	var aops []map[string]any
+	type apCase struct{ hits, workers, latency, signalMs, signals int }
+	var acases []apCase
+	for _, c := range []apCase{{4, 2, 120, 0, 0}, {4, 2, 120, 30, 1}, {4, 2, 120, 170, 1}, {2, 2, 150, 60, 1}, {6, 3, 100, 140, 1}, {4, 2, 120, 150, 2}, {1, 1, 100, 40, 1}} {
+		acases = append(acases, c)
+		aops = append(aops, map[string]any{"op": "attackpump", "hits": c.hits, "workers": c.workers, "latency_ms": c.latency, "signal_ms": c.signalMs, "signals": c.signals})
+	}
+	ares, err := runMain(dir, aops)
+	if err != nil {
+		t.Fatal(err)
+	}
+	for i, m := range ares {
+		enc := []int{}
+		if l, ok := m["encoded"].([]any); ok {
+			for _, x := range l {
+				enc = append(enc, int(x.(float64)))
+			}
+		}
+		sort.Ints(enc)
+		started, _ := m["started"].(float64)
+		ret, _ := m["returned"].(bool)
+		e, _ := m["err"].(string)
+		if p, _ := m["panic"].(string); p != "" {
+			e = "panic: " + p
+		}
+		c := acases[i]
+		tr.Emit("AttackPump", KV{"hits": c.hits, "workers": c.workers, "latency_ms": c.latency, "signal_ms": c.signalMs, "signals": c.signals,
+			"started": int(started), "encoded": enc, "returned": ret, "err": e})
+	}
+	writeJSON(filepath.Join(dir, "pump.summary.json"), KV{"scripts": len(scripts), "max_len": maxLen, "attack_pump_runs": len(acases)})
 }
